@@ -36,6 +36,8 @@ pub struct OpMix {
     pub two_writers: u32,
     pub switch_cache: u32,
     pub cancel_commit: u32,
+    /// async commits cancelled in flight (`AbandonAt::CommitDropped`)
+    pub commit_dropped: u32,
 }
 
 impl OpMix {
@@ -63,6 +65,7 @@ impl OpMix {
         two_writers: 0,
         switch_cache: 0,
         cancel_commit: 0,
+        commit_dropped: 0,
     };
 }
 
@@ -169,6 +172,22 @@ pub fn op(cfg: ProgCfg, nkeys: usize, nblobs: usize) -> BoxedStrategy<Op> {
                     spec.chunks = vec![3, 4];
                 }
                 Op::Abandon { spec, at: AbandonAt::CancelThenCommit(n) }
+            })
+            .boxed(),
+    );
+    add(
+        m.commit_dropped,
+        (gen::write_spec(cfg.wmix, nkeys, nblobs), 1u8..5)
+            .prop_map(|(mut spec, n)| {
+                if !spec.streamed() {
+                    spec.entry = WEntry::Opts;
+                }
+                spec.interfere = Interfere::None;
+                spec.aged_hours = 0;
+                spec.crowd = 0;
+                spec.churn = 0;
+                spec.cancel_chunk = None;
+                Op::Abandon { spec, at: AbandonAt::CommitDropped(n) }
             })
             .boxed(),
     );
